@@ -117,8 +117,16 @@ class SimWBEMServer:
         return p
 
     def enc_obj(self, op, ns, o):
-        if isinstance(o, tuple) and len(o) == 3 and o[0] == 'OBJECTPATH':
+        if isinstance(o, tuple) and len(o) == 3 and o[0] in (
+                'OBJECTPATH', 'VALUE.OBJECT'):
             o = o[2]
+        if isinstance(o, CIMInstance) and op == 'ExecQuery':
+            # (VALUE.OBJECT | VALUE.OBJECTWITHLOCALPATH | VALUE.OBJECTWITHPATH)
+            if o.path is None:
+                return X.VALUE_OBJECT(o.tocimxml(ignore_path=True))
+            return X.VALUE_OBJECTWITHPATH(
+                self._inst_path(o.path, ns, True).tocimxml(),
+                o.tocimxml(ignore_path=True))
         if isinstance(o, CIMInstance):
             if op == 'EnumerateInstances':
                 return X.VALUE_NAMEDINSTANCE(
